@@ -19,6 +19,7 @@ import sys
 import tempfile
 import time
 import traceback
+import zlib
 
 LEVEL = "fault_enumeration"
 EXHAUSTIVE = ("every storage-event boundary of each executed transaction x 3 prefix variants for open files "
@@ -53,17 +54,18 @@ ASSUMPTIONS = [
     "in-process tap does not see",
 ]
 SHARDS = {"quick": 4, "thorough": 16}
-BUDGET_S = {"quick": 80, "thorough": 640}
+BUDGET_S = {"quick": 75, "thorough": 640}
 FLOORS = {
-    "quick": {"crash_points": 2000, "evaluations.snapshot": 3000, "tx.committed": 6, "tx.both_outcomes": 6,
-              "flip.at_toc_rename": 6, "reach.merge_small": 1, "reach.optimize_merge": 1, "reach.clear": 1,
+    "quick": {"crash_points": 2500, "evaluations.snapshot": 5000, "tx.committed": 5, "tx.both_outcomes": 5,
+              "flip.at_toc_rename": 5, "reach.merge_small": 1, "reach.optimize_merge": 1, "reach.clear": 1,
               "reach.loose_commit": 1, "reach.cancel_or_exception": 1, "variant.flushed.evals": 100,
-              "variant.mid.evals": 500, "model.crosscheck": 10, "lock.stale_file_present": 100},
-    "thorough": {"crash_points": 30000, "evaluations.snapshot": 50000, "tx.committed": 60, "tx.both_outcomes": 60,
-                 "flip.at_toc_rename": 60, "reach.merge_small": 5, "reach.optimize_merge": 5, "reach.clear": 5,
-                 "reach.loose_commit": 5, "reach.cancel_or_exception": 5, "variant.flushed.evals": 1000,
-                 "variant.mid.evals": 10000, "model.crosscheck": 100, "lock.stale_file_present": 1000,
-                 "realkill.traces_validated": 40},
+              "variant.mid.evals": 2000, "model.crosscheck": 15, "lock.stale_file_present": 4000,
+              "realkill.traces_validated": 2},
+    "thorough": {"crash_points": 40000, "evaluations.snapshot": 80000, "tx.committed": 80, "tx.both_outcomes": 80,
+                 "flip.at_toc_rename": 80, "reach.merge_small": 5, "reach.optimize_merge": 5, "reach.clear": 5,
+                 "reach.loose_commit": 5, "reach.cancel_or_exception": 5, "variant.flushed.evals": 1500,
+                 "variant.mid.evals": 30000, "model.crosscheck": 150, "lock.stale_file_present": 50000,
+                 "realkill.traces_validated": 60},
 }
 
 VOCAB = ["alfa", "bravo", "charlie", "delta", "echo", "foxtrot", "golf", "hotel"]
@@ -243,14 +245,16 @@ def model_apply(model, fieldset, tx):
 # ----------------------------------------------------------------------
 
 class Gen(object):
-    def __init__(self, rng):
+    def __init__(self, rng, tier="quick"):
         self.rng = rng
         self.nid = 0
         self.nextra = 0
+        self.maxwords = 2 if tier == "quick" else 4
+        self.maxops = 2 if tier == "quick" else 4
 
     def doc(self, key, fieldset):
         rng = self.rng
-        d = {"id": key, "t": " ".join(rng.choice(VOCAB) for _ in range(rng.randint(1, 3))),
+        d = {"id": key, "t": " ".join(rng.choice(VOCAB) for _ in range(rng.randint(1, self.maxwords))),
              "n": rng.randint(0, 50)}
         if "k" in fieldset and rng.random() < 0.5:
             d["k"] = " ".join(rng.sample(["red", "green", "blue"], rng.randint(1, 2)))
@@ -263,8 +267,9 @@ class Gen(object):
         self.nid += 1
         return "d%d" % self.nid
 
-    def tx(self, model, fieldset, commit=None, finish=None, compound=None, front=None, maxops=3, schema_ops=True):
+    def tx(self, model, fieldset, commit=None, finish=None, compound=None, front=None, maxops=None, schema_ops=True):
         rng = self.rng
+        maxops = maxops or self.maxops
         fs = set(fieldset)
         ops = []
         front = front or "segment"
@@ -320,24 +325,28 @@ class Gen(object):
 def gen_history(rng, idx, tier):
     """Returns dict(theme, create_monitored, prelude=[tx...], txs=[tx...]). Themes guarantee the reach floors."""
     theme = ["merge", "optimize", "clear", "loose"][(idx + idx // 4) % 4]
-    g = Gen(rng)
+    g = Gen(rng, tier)
     model, fs = {}, set(["id", "t", "n", "k"])
     prelude = []
-    npre = {"merge": rng.randint(5, 6), "optimize": rng.randint(2, 4), "clear": rng.randint(1, 3),
+    npre = {"merge": 5 if tier == "quick" else rng.randint(5, 7), "optimize": rng.randint(2, 4), "clear": rng.randint(1, 3),
             "loose": rng.randint(0, 3)}[theme]
     for _ in range(npre):
-        tx = g.tx(model, fs, commit="nomerge", finish="commit", maxops=2, schema_ops=False,
+        tx = g.tx(model, fs, commit="nomerge", finish="commit", maxops=1 if tier == "quick" else 2, schema_ops=False,
                   compound=(rng.random() < (0.3 if theme == "loose" else 0.7)))
         tx.pop("limitmb", None)
         tx["ops"] = [o for o in tx["ops"] if o[0] != "add_reader"]
+        if not any(o[0] in ("add", "upd") for o in tx["ops"]):
+            tx["ops"].append(["add", g.doc(g.newkey(), fs)])      # every prelude commit creates a segment
         prelude.append(tx)
         model, fs = model_apply(model, fs, tx)
-    ntx = rng.randint(3, 4) if tier == "quick" else rng.randint(3, 6)
+    ntx = 3 if tier == "quick" else rng.randint(3, 6)
     forced = {"merge": dict(commit="default", finish="commit"),
               "optimize": dict(commit="optimize", finish=rng.choice(["commit", "with"])),
               "clear": dict(commit="clear", finish=rng.choice(["commit", "with"])),
               "loose": dict(compound=False, finish="commit", commit=rng.choice(["default", "nomerge"]))}[theme]
-    fpos = 0 if theme == "merge" else rng.randrange(ntx)
+    # histories 0..3 (one per theme) put the theme's transaction first, where its reach condition is guaranteed
+    # by the prelude whatever the seed; later histories place it anywhere
+    fpos = 0 if (theme == "merge" or idx < 4) else rng.randrange(ntx)
     # one cancelled / failing transaction in most histories keeps that clause reached
     cpos = rng.choice([i for i in range(ntx) if i != fpos]) if rng.random() < 0.7 else None
     txs = []
@@ -351,8 +360,7 @@ def gen_history(rng, idx, tier):
         if j == fpos:
             tx = g.tx(model, fs, front="segment", **forced)
             if not any(o[0] in ("add", "upd", "add_reader") for o in tx["ops"]):
-                tx["ops"].append(["add", g.doc(g.newkey(), fs | set(o[1] for o in tx["ops"] if o[0] == "add_field")
-                                               - set(o[1] for o in tx["ops"] if o[0] == "remove_field"))])
+                tx["ops"].append(["add", g.doc(g.newkey(), model_apply({}, fs, dict(tx, finish="commit"))[1])])
             if theme == "merge":
                 tx.pop("limitmb", None)
         elif j == cpos:
@@ -427,7 +435,13 @@ def evaluate(d, seedtag):
             fresh["n"] = 99
         w.add_document(**fresh)
         phase = "fresh-commit"
-        w.commit()
+        ck = zlib.crc32(str(seedtag).encode()) % 3
+        if ck == 0:
+            w.commit()
+        elif ck == 1:
+            w.commit(optimize=True)
+        else:
+            w.commit(merge=False)
         phase = "reopen-after-write"
         ix2 = index.open_dir(d)
         obs["after"] = observe_index(ix2)
@@ -565,7 +579,7 @@ class TxRun(object):
                 if os.path.exists(snap):
                     shutil.rmtree(snap)
                 info = tap.materialize(self.d, snap, variant, self.rng)
-                if variant == "full" and self.kill_prob and self.rng.random() < self.kill_prob:
+                if variant == "full" and kind != "end" and self.kill_prob and self.rng.random() < self.kill_prob:
                     self.keep_kill_sample(n, kind, name, snap, sts)
                 ctx.count("evaluations.snapshot")
                 ctx.count("variant.%s.evals" % variant)
@@ -687,8 +701,6 @@ def run_monitored_tx(ctx, tap, root, d, idx, j, tx, rng, wb, model, new_model, f
     run.ref_old_cmp = comparable(ref_old)
     if kill_budget > 0 and not tx.get("create"):
         run.kill_prob = ctx.pick(0.004, 0.01)
-    if tx.get("front") in ("async", "buffered"):
-        run.kill_prob = 0.0
     tap.reset_log()
     tap.on_event = run.on_event
     random.seed("c02-tx:%d:%d:%d" % (ctx.seed, idx, j))     # same seed string as the SIGKILL victim uses
@@ -824,7 +836,7 @@ def run_monitored_tx(ctx, tap, root, d, idx, j, tx, rng, wb, model, new_model, f
             else:
                 ctx.count("flip.other")
                 ctx.note("history %d tx %d: flip old->new at %s" % (idx, j, fk))
-            info["sample"] = {"history": idx, "tx": tx, "events": nevents, "crash_points": len(run.pending),
+            info["sample"] = {"history": idx, "tx": tx, "events": nevents, "snapshots_evaluated": len(run.pending),
                               "flip_after_event": [fl[0], fl[2], norm_name(fl[3])],
                               "old_keys": keys_of(old_cmp["state"]), "new_keys": keys_of(new_cmp["state"])}
     # ---- real SIGKILL cross-validation of sampled crash points
@@ -1048,6 +1060,6 @@ def _candidate_cuts(st, data, lo, hi):
 # ----------------------------------------------------------------------
 
 def run(ctx):
-    for idx in ctx.cases(quick=3, thorough=12):
+    for idx in ctx.cases(quick=2, thorough=8):
         ctx.reseed_global(idx)
         run_history(ctx, idx)
